@@ -77,6 +77,10 @@ pub struct IoStats {
     pub write_eintr: u64,
     pub injected: String,
     pub injected_total: u64,
+    #[serde(default)]
+    pub clock_reads: u64,
+    #[serde(default)]
+    pub clock_jumps: u64,
 }
 
 #[derive(Clone, Debug, Default, Serialize, Deserialize)]
